@@ -57,8 +57,13 @@ type Gen struct {
 	Exotic  bool // ids beyond 2^40 / negative ids, odd floats, control characters
 	// ZeroP is the probability with which a value that is written is a boundary value: id,
 	// count, version or coordinate 0, empty string, empty list, bounds object without members.
-	ZeroP    float64
-	usedKeys int
+	ZeroP float64
+	// NullTopP / NullElemP: probability with which an absent optional member of the document's
+	// top level / of an element is written as null (see DocNulls). NullOnly restricts this to
+	// one member, named "<class>.<key>" ("doc.generator", "way.nodes", "member.role", ...).
+	NullTopP, NullElemP float64
+	NullOnly            string
+	usedKeys            int
 }
 
 // NewGen returns a generator with default bounds.
@@ -679,6 +684,7 @@ func (g *Gen) Doc(nElem int, mask int) *Doc {
 	for i := 0; i < nElem && len(kinds) > 0; i++ {
 		d.Elements = append(d.Elements, g.Element(kinds[g.R.Intn(len(kinds))]))
 	}
+	g.DocNulls(d)
 	return d
 }
 
@@ -710,4 +716,109 @@ func (g *Gen) ChangeDoc(nElem int) *ChangeDoc {
 	c.Create, c.Modify, c.Delete = block("create"), block("modify"), block("delete")
 	c.Extra = g.Extra("change.unknown")
 	return c
+}
+
+// ---------------------------------------------------------------------------------------
+// null: the third state of an optional member (absent / present / null). JavaScript and
+// Python writers serialise a missing value as null. A nulled member is absent in the model
+// (so it denotes the zero value) and is written as `"key": null`.
+
+// nulls returns null members for those of the absent keys that the generator picks, and
+// records them as "<class>.<key>" in *log.
+func (g *Gen) nulls(p float64, only string, cls string, log *[]string, absent ...string) Object {
+	if p <= 0 {
+		return nil
+	}
+	var o Object
+	for _, k := range absent {
+		if k == "" || (only != "" && only != cls+"."+k) {
+			continue
+		}
+		if g.R.Chance(p) {
+			o = append(o, Field{k, Null{}})
+			*log = append(*log, cls+"."+k)
+		}
+	}
+	return o
+}
+
+func ifNil(absent bool, key string) string {
+	if absent {
+		return key
+	}
+	return ""
+}
+
+func (g *Gen) metaNulls(kind string, m *Meta) []string {
+	return []string{ifNil(m.User == nil, "user"), ifNil(m.UID == nil, "uid"), ifNil(m.Visible == nil, "visible"),
+		ifNil(m.Version == nil, "version"), ifNil(m.Changeset == nil, "changeset"), ifNil(m.Timestamp == nil, "timestamp"),
+		ifNil(m.Committed == nil, "committed"), ifNil(!m.HasTags, "tags")}
+}
+
+// ElementNulls adds null members to an element (probability NullElemP per absent member,
+// restricted to NullOnly when set) and returns their names.
+func (g *Gen) ElementNulls(e Element) []string {
+	var log []string
+	p, only := g.NullElemP, g.NullOnly
+	switch x := e.(type) {
+	case *Node:
+		ks := append(g.metaNulls("node", &x.Meta), ifNil(x.Lat == nil, "lat"), ifNil(x.Lon == nil, "lon"))
+		x.Extra = append(x.Extra, g.nulls(p, only, "node", &log, ks...)...)
+	case *Way:
+		ks := append(g.metaNulls("way", &x.Meta), ifNil(!x.HasNodes, "nodes"), ifNil(x.Updates == nil, "updates"), ifNil(x.Bounds == nil, "bounds"))
+		x.Extra = append(x.Extra, g.nulls(p, only, "way", &log, ks...)...)
+	case *Relation:
+		ks := append(g.metaNulls("relation", &x.Meta), ifNil(!x.HasMembers, "members"), ifNil(x.Updates == nil, "updates"), ifNil(x.Bounds == nil, "bounds"))
+		x.Extra = append(x.Extra, g.nulls(p, only, "relation", &log, ks...)...)
+		for i := range x.Members {
+			m := &x.Members[i]
+			m.Extra = append(m.Extra, g.nulls(p, only, "member", &log, ifNil(m.Role == nil, "role"), ifNil(m.Version == nil, "version"),
+				ifNil(m.Changeset == nil, "changeset"), ifNil(m.Lat == nil, "lat"), ifNil(m.Lon == nil, "lon"),
+				ifNil(m.Orientation == nil, "orientation"), ifNil(!m.HasNodes, "nodes"))...)
+		}
+	case *Changeset:
+		x.Extra = append(x.Extra, g.nulls(p, only, "changeset", &log, ifNil(x.User == nil, "user"), ifNil(x.UID == nil, "uid"),
+			ifNil(x.CreatedAt == nil, "created_at"), ifNil(x.ClosedAt == nil, "closed_at"), ifNil(x.Open == nil, "open"),
+			ifNil(x.NumChanges == nil, "num_changes"), ifNil(x.MinLat == nil, "min_lat"), ifNil(x.MaxLat == nil, "max_lat"),
+			ifNil(x.MinLon == nil, "min_lon"), ifNil(x.MaxLon == nil, "max_lon"), ifNil(x.CommentsCount == nil, "comments_count"),
+			ifNil(!x.HasTags, "tags"), ifNil(!x.HasDiscussion, "discussion"))...)
+	case *Note:
+		x.Extra = append(x.Extra, g.nulls(p, only, "note", &log, ifNil(x.Lat == nil, "lat"), ifNil(x.Lon == nil, "lon"),
+			ifNil(x.URL == nil, "url"), ifNil(x.CommentURL == nil, "comment_url"), ifNil(x.CloseURL == nil, "close_url"),
+			ifNil(x.ReopenURL == nil, "reopen_url"), ifNil(x.Status == nil, "status"), ifNil(!x.HasComments, "comments"))...)
+	case *User:
+		x.Extra = append(x.Extra, g.nulls(p, only, "user", &log, ifNil(x.Name == nil, "name"), ifNil(x.Description == nil, "description"),
+			ifNil(x.ImgHref == nil, "img"), ifNil(x.ChangesetsCount == nil, "changesets"), ifNil(x.TracesCount == nil, "traces"),
+			ifNil(!x.Home, "home"), ifNil(!x.HasLanguages, "languages"), ifNil(x.BlocksCount == nil && x.BlocksActive == nil, "blocks"),
+			ifNil(x.MsgRecvCount == nil && x.MsgRecvUnread == nil && x.MsgSentCount == nil, "messages"), ifNil(x.CreatedAt == nil, "created_at"))...)
+	}
+	return log
+}
+
+// DocNulls adds null members at the top level of d (probability NullTopP per absent member,
+// restricted to NullOnly when set), and to its elements; the names go to d.NullTop / d.NullElem.
+func (g *Gen) DocNulls(d *Doc) {
+	if g.NullTopP > 0 {
+		var log []string
+		o := g.nulls(g.NullTopP, g.NullOnly, "doc", &log, ifNil(d.VersionKind == VersionAbsent, "version"), ifNil(d.Generator == nil, "generator"),
+			ifNil(d.Copyright == nil, "copyright"), ifNil(d.Attribution == nil, "attribution"), ifNil(d.License == nil, "license"),
+			ifNil(d.Bounds == nil, "bounds"))
+		for _, f := range o {
+			if f.Key == "version" {
+				d.VersionKind = VersionNull
+			} else {
+				d.Extra = append(d.Extra, f)
+			}
+		}
+		d.NullTop = append(d.NullTop, log...)
+	}
+	if g.NullElemP > 0 {
+		if d.NoElements && (g.NullOnly == "" || g.NullOnly == "doc.elements") && g.R.Chance(g.NullElemP) {
+			d.Extra = append(d.Extra, Field{"elements", Null{}})
+			d.NullElem = append(d.NullElem, "doc.elements")
+		}
+		for _, e := range d.Elements {
+			d.NullElem = append(d.NullElem, g.ElementNulls(e)...)
+		}
+	}
 }
